@@ -55,8 +55,11 @@ class CHECK(Check):
             for kind, s in f.s1():
                 out.append((d, kind, s))
                 if kind != 'trunc':
-                    # the same deviation with every token on a line of its own (recovery that works line-wise)
+                    # the same deviation with every token on a line of its own (recovery that works line-wise), and with an empty
+                    # line comment / a block comment between the tokens (comment patterns that swallow what follows)
                     out.append((d, kind + '/nl', s))
+                    out.append((d, kind + '/lc', s))
+                    out.append((d, kind + '/bc', s))
             # statement concatenations, in several layouts
             tops = self.tops(m)
             for a, b in itertools.product(tops, tops):
@@ -70,7 +73,7 @@ class CHECK(Check):
                     for x, y in ((gb, a), (a, gb)):
                         out.append((d, 'cat', x + y))
                         out.append((d, 'cat/nl', x + y))
-                        for sep in (' ; ', ';\n', '\n', '\n;\n', ' ;\n\n', ' -- c\n', ' /* c\n */ '):
+                        for sep in (' ; ', ';\n', '\n', '\n;\n', ' ;\n\n', ' -- c\n', ' /* c\n */ ', ' --\n', '--\n', ' -- \n', ' #\n', ' /**/ ', ' --\n\n'):
                             out.append((d, 'text', m.text_of(x) + sep + m.text_of(y)))
                         # one line break at every position of the concatenation
                         z = x + y
@@ -156,6 +159,10 @@ class CHECK(Check):
             text = m.text_of(payload)
             if kind.endswith('/nl'):
                 text = text.replace(' ', '\n')
+            elif kind.endswith('/lc'):
+                text = text.replace(' ', ' --\n')
+            elif kind.endswith('/bc'):
+                text = text.replace(' ', ' /**/ ')
         try:
             actual = tuple(m.lex_types(parsing.strip_tail(text)))
         except parsing.LexError:
@@ -218,7 +225,10 @@ class CHECK(Check):
         if kind == 'text' or kind == 'structural':
             return {'dialect': d, 'kind': kind, 'text': payload}
         text = self.models[d].text_of(payload)
-        return {'dialect': d, 'kind': kind, 'text': text.replace(' ', '\n') if kind.endswith('/nl') else text}
+        for suf, sep in (('/nl', '\n'), ('/lc', ' --\n'), ('/bc', ' /**/ ')):
+            if kind.endswith(suf):
+                text = text.replace(' ', sep)
+        return {'dialect': d, 'kind': kind, 'text': text}
 
 
 def column_class_reps(m):
